@@ -774,6 +774,26 @@ pub fn gen_run(rng: &mut Rng, sw: &Swarm, pool: &[Query], leap: &Leap, reset: bo
           continue;
         }
       }
+      // values that cross threads: a clone of a value goes into an exchange slot of the run, another
+      // thread takes it out and asks it (whatever the value remembers was filled on the first
+      // thread; anything it holds that is tied to the thread that made it shows here)
+      if sw.threads > 1 && rng.chance(1, 9) && threads[t].len() + 3 <= sw.ops_per_thread {
+        let g = rng.below(crate::script::GSLOTS as u64) as usize;
+        if !filled.is_empty() && rng.chance(1, 2) {
+          threads[t].push(Op::HPut { slot: *rng.pick(&filled), g });
+          gs.handle_ops += 1;
+          emitted += 1;
+        } else {
+          let slot = rng.below(SLOTS as u64) as usize;
+          slots_used[t][slot] = true;
+          threads[t].push(Op::HTake { slot, g });
+          threads[t].push(Op::HGet { slot, g: rng.below(64) as i64 });
+          threads[t].push(Op::HGet { slot, g: rng.below(64) as i64 });
+          gs.handle_ops += 3;
+          emitted += 3;
+        }
+        continue;
+      }
       let op = if filled.is_empty() || rng.chance(1, 4) {
         let mut base = *rng.pick(&recent_tuples);
         if !filled.is_empty() && rng.chance(1, 3) {
